@@ -96,7 +96,7 @@ class PostgresImpl(SqlImpl):
     @classmethod
     def sqa_type(cls, pdt_type: Dtype):
         if isinstance(pdt_type, types.List):
-            return sqa.types.ARRAY(item_type=cls.sqa_type())
+            return sqa.types.ARRAY(item_type=cls.sqa_type(pdt_type.inner))
         if isinstance(pdt_type, Float32):
             return sqa.REAL()
 
